@@ -99,24 +99,29 @@ func (f *FileImage) writeDataObject(i int, di DescriptorInput, t time.Time) erro
 		return errObjectIDOverflow
 	}
 
-	// If this is a primary partition, verify there isn't another primary partition, and update the
-	// architecture in the global header.
+	// If this is a primary partition, verify there isn't another primary partition, and note the
+	// architecture to record in the global header.
+	arch := f.h.Arch
 	if p, ok := di.opts.md.(partition); ok && p.Parttype == PartPrimSys {
 		if ds, err := f.GetDescriptors(WithPartitionType(PartPrimSys)); err == nil && len(ds) > 0 {
 			return errPrimaryPartition
 		}
 
-		f.h.Arch = p.Arch
+		arch = p.Arch
 	}
 
-	d := &f.rds[i]
+	// Populate a copy of the descriptor, so that f is left unmodified if the object is rejected.
+	d := f.rds[i]
 	d.ID = uint32(i) + 1 //nolint:gosec // Overflow handled above.
 
-	f.h.DataSize = f.calculatedDataSize()
+	dataSize := f.calculatedDataSize()
 
-	if err := writeDataObjectAt(f.rw, f.h.DataOffset+f.h.DataSize, di, t, d); err != nil {
+	if err := writeDataObjectAt(f.rw, f.h.DataOffset+dataSize, di, t, &d); err != nil {
 		return err
 	}
+
+	f.rds[i] = d
+	f.h.Arch = arch
 
 	// Update minimum object ID map.
 	if minID, ok := f.minIDs[d.GroupID]; !ok || d.ID < minID {
@@ -124,7 +129,7 @@ func (f *FileImage) writeDataObject(i int, di DescriptorInput, t time.Time) erro
 	}
 
 	f.h.DescriptorsFree--
-	f.h.DataSize += d.SizeWithPadding
+	f.h.DataSize = dataSize + d.SizeWithPadding
 
 	return nil
 }
